@@ -220,7 +220,23 @@ class Gen:
         op["body"] = self.body(depth)
         if subject and rng.random() < 0.15:
             op["body"].append({"op": "eternity"})
-        if subject and rng.random() < 0.15 and op["until"]["k"] != "delay":
+        if subject and rng.random() < 0.1:
+            # the body ends up waiting for a connective that never holds: only the notification
+            # of the block can get it out of there
+            for name in ("N1", "N2"):
+                self.resources[name] = {"kind": "flag"}
+            op["body"].append({"op": "wait", "id": self.fresh("w"), "x": {
+                "k": rng.choice(["or", "and"]),
+                "xs": [{"k": "flag", "n": "N1"}, {"k": "flag", "n": "N2"}]}})
+        if subject and op["until"]["k"] in ("and", "or") and rng.random() < 0.35:
+            # the connective object has been used before: by a block on it that was entered and
+            # left within one turn (its body raised at once)
+            shared = {"k": "shared", "n": op["label"] + "R", "x": op["until"]}
+            op["until"] = shared
+            self.prelude = [{"op": "try", "body": [{
+                "op": "scope", "label": self.fresh("S"), "children": [], "until": shared,
+                "body": [{"op": "raise", "type": "E"}]}]}]
+        if subject and rng.random() < 0.15 and op["until"]["k"] not in ("delay", "shared"):
             # the very same notification object guards a block nested in the body as well (a
             # module-level `DEADLINE = time >= 10` / one Flag used at two levels of one activity)
             shared = {"k": "shared", "n": op["label"] + "N", "x": op["until"]}
@@ -239,7 +255,9 @@ class Gen:
         pre = []
         for _ in range(rng.choice([0, 0, 1, 2])):
             pre.append({"op": "sleep", "d": rng.choice(self.delays)})
+        self.prelude = []
         subject = self.scope(0, subject=True)
+        pre = pre + self.prelude
         block = subject
         if rng.random() < 0.25:
             outer = {"op": "scope", "label": self.fresh("O"), "children": [],
